@@ -10,7 +10,9 @@ import (
 	"time"
 
 	"codeberg.org/TauCeti/mangle-go/ast"
+	"codeberg.org/TauCeti/mangle-go/functional"
 	"codeberg.org/TauCeti/mangle-go/interpreter"
+	"codeberg.org/TauCeti/mangle-go/parse"
 
 	"verifmc/oracle"
 	"verifmc/rt"
@@ -23,6 +25,8 @@ var c16Files = map[string]string{
 	"b.mg":       "Decl b(X) bound [/number].\nb(X) :- a(X).\nb(7).\n",
 	"c.mg":       "c(X) :- a(X), X > 1.\n",
 	"t.mg":       "Decl ta(X) temporal bound [/number].\nta(1)@[2024-01-01, 2024-01-05].\nta(2)@[2024-02-01, 2024-02-02].\ntb(X)@[S,E] :- ta(X)@[S,E].\n",
+	"tx.mg":      "Decl tx(X) temporal descr [extensional()] bound [/number].\ntx(1)@[2024-01-01, 2024-01-20].\n",
+	"tx2.mg":     "tx(1)@[2024-01-10, 2024-02-15].\ntx(2)@[2024-03-01, 2024-03-02].\ntx(1)@[2024-01-01, 2024-01-20].\n",
 	"bad.mg":     "a(1) :- .\n",
 	"dup.mg":     "a(9).\n",
 	"evalerr.mg": "x(Y) :- a(X), Y = fn:div(X, 0).\n",
@@ -59,15 +63,18 @@ var c16Alphabet = []c16Cmd{
 	{"load", "c.mg"},
 	{"load", "t.mg"},
 	{"load", "a.mg,b.mg"},
+	{"load", "tx.mg"},
+	{"load", "tx2.mg"},
+	{"define", "tx(1)@[2024-01-15, 2024-03-01]."},
 	{"load", "bad.mg"},
 	{"load", "dup.mg"},
 	{"load", "evalerr.mg"},
 	{"pop", ""},
 }
 
-var c16Small = []int{0, 2, 3, 4, 6, 8, 9, 10, 11, 13, 16, 18} // p(1), q, r, s, Decl a, base/inv, ev, load a, load b, load t, load dup, pop
+var c16Small = []int{0, 2, 3, 6, 8, 10, 11, 13, 15, 16, 17, 19, 21} // p(1), q, r, Decl a, base/inv, load a, load b, load t, load tx, load tx2, define tx, load dup, pop
 
-var c16Preds = []string{"p", "q", "r", "s", "a", "b", "c", "x", "ta", "tb", "nope", "zz", "base", "inv", "ev"}
+var c16Preds = []string{"p", "q", "r", "s", "a", "b", "c", "x", "ta", "tb", "nope", "zz", "base", "inv", "ev", "tx"}
 
 type c16State struct {
 	loaded      []string // live loaded pathsets
@@ -239,7 +246,7 @@ func c16(r *rt.Run) {
 	_ = firsts
 	_ = jobs
 	os.RemoveAll(root)
-	r.Finish("every command history up to depth d over 19 commands (10 defines incl. declarations, a rejected one, a redefinition and two that pass analysis and fail at evaluation, 8 loads incl. parse error, redefinition, evaluation error, temporal file, multi-file pathset; pop), each on a fresh interpreter; " +
+	r.Finish("every command history up to depth d over 22 commands (11 defines incl. a temporal fact that extends a loaded extensional temporal predicate, 10 loads incl. two files for that predicate with overlapping intervals; incl. declarations, a rejected one, a redefinition and two that pass analysis and fail at evaluation, 8 loads incl. parse error, redefinition, evaluation error, temporal file, multi-file pathset; pop), each on a fresh interpreter; " +
 		"after every command: success/failure and the answers to 11 predicate queries are compared with a fresh interpreter that loads only the live fragments; states = distinct histories, non-trivial = histories with a pop or a failed command")
 }
 
@@ -332,6 +339,13 @@ func c16History(r *rt.Run, root string, hist []c16Cmd, raw bool) {
 				r.Violate(kind, fmt.Sprintf("after [%s]: %s (live fragments: loaded=%v interactive=%v)", prefix, diffObs(want, got), next.loaded, next.interactive), w)
 				return
 			}
+			// absolute oracle for predicates that only ever receive facts (no rules anywhere in the alphabet): the visible
+			// facts are the union of the facts written in the live fragments. The differential comparison above cannot see
+			// a defect that loses a fact in the same way on the fresh replay (e.g. when stacking two fragments).
+			if d := c16FactUnion(next, got); d != "" {
+				r.Violate("live-facts-not-the-union-of-the-live-fragments", fmt.Sprintf("after [%s]: %s (live fragments: loaded=%v interactive=%v)", prefix, d, next.loaded, next.interactive), w)
+				return
+			}
 			r.Outcome(strings.Join(got, "|"))
 			st = next
 		}
@@ -345,6 +359,95 @@ func c16History(r *rt.Run, root string, hist []c16Cmd, raw bool) {
 			r.Sample(map[string]any{"history": strings.Join(names, " ; ")})
 		}
 	}
+}
+
+// c16FactOnlyPreds are predicates for which no command of the alphabet has a rule.
+var c16FactOnlyPreds = []string{"tx", "p", "zz"}
+
+// c16FactUnion compares the observed answers for the fact-only predicates with the union of the facts written in
+// the live fragments (files of the loaded path sets and accepted interactive definitions).
+func c16FactUnion(st c16State, obs []string) string {
+	var texts []string
+	for _, l := range st.loaded {
+		for _, f := range strings.Split(l, ",") {
+			texts = append(texts, c16Files[f])
+		}
+	}
+	texts = append(texts, st.interactive...)
+	for _, pred := range c16FactOnlyPreds {
+		want := map[string]bool{}
+		for _, t := range texts {
+			u, err := parse.Unit(strings.NewReader(t))
+			if err != nil {
+				continue
+			}
+			for _, c := range u.Clauses {
+				if c.Head.Predicate.Symbol != pred || len(c.Premises) > 0 {
+					continue
+				}
+				head, err := functional.EvalAtom(c.Head, nil)
+				if err != nil {
+					continue
+				}
+				k, _ := oracle.AtomKeyOf(head)
+				if c.HeadTime != nil {
+					k += c.HeadTime.String()
+				}
+				want[k] = true
+			}
+		}
+		var items []string
+		for k := range want {
+			items = append(items, k)
+		}
+		sort.Strings(items)
+		expect := pred + ": {" + strings.Join(items, " ") + "}"
+		for _, o := range obs {
+			if !strings.HasPrefix(o, pred+": ") {
+				continue
+			}
+			if len(want) == 0 {
+				break // nothing live mentions it: unknown or empty, judged by the differential comparison
+			}
+			// the observation may list a fact twice (set semantics are C06's subject); compare as sets
+			gotSet := map[string]bool{}
+			inner := strings.TrimSuffix(strings.TrimPrefix(o, pred+": {"), "}")
+			_ = inner
+			if o != expect && !sameItems(o, expect) {
+				return fmt.Sprintf("the live fragments write %s but the interpreter answers %s", expect, o)
+			}
+			_ = gotSet
+		}
+	}
+	return ""
+}
+
+// sameItems compares two observation strings "pred: {a b c}" as sets of items (items contain no spaces inside
+// keys except within interval annotations, which are kept attached by splitting on " " only between "} " groups).
+func sameItems(a, b string) bool {
+	norm := func(s string) string {
+		i := strings.Index(s, "{")
+		if i < 0 {
+			return s
+		}
+		body := strings.TrimSuffix(s[i+1:], "}")
+		// items are separated by a single space followed by the predicate symbol of the key
+		parts := strings.Split(body, " "+s[:strings.Index(s, ":")]+"/")
+		set := map[string]bool{}
+		for j, p := range parts {
+			if j > 0 {
+				p = s[:strings.Index(s, ":")] + "/" + p
+			}
+			set[p] = true
+		}
+		var items []string
+		for k := range set {
+			items = append(items, k)
+		}
+		sort.Strings(items)
+		return strings.Join(items, "\x00")
+	}
+	return norm(a) == norm(b)
 }
 
 func diffObs(want, got []string) string {
